@@ -39,14 +39,15 @@ theorem pat_next (b : Bytes) (src : Option Nat) :
        else Tables.patEntryFromBytes (b.take 4) >>= fun e => .ok (⟨⟨b.drop 4, src.map (· + 4)⟩⟩, some e)) := by
   unfold ProgramIter.next
   simp only [Slice.len]
-  by_cases he : b.isEmpty = true
-  · simp only [he, if_true, R.pure_eq]
-  · simp only [he, Bool.false_eq_true, if_false]
-    by_cases h4 : b.length < 4
-    · simp only [h4, decide_true, if_true, R.pure_eq]
-    · have h4' : 4 ≤ b.length := by omega
-      simp only [h4, decide_false, Bool.false_eq_true, if_false, upto_ok ⟨b, src⟩ 4 h4', from_ok ⟨b, src⟩ 4 h4',
-        R.ok_bind, R.pure_eq]
+  -- the two "nothing left" tests, in whichever order the source makes them
+  by_cases he : b.isEmpty = true <;> by_cases h4 : b.length < 4
+  · simp only [he, h4, decide_true, if_true, R.pure_eq]
+  · have : b.length = 0 := by simpa using he
+    omega
+  · simp only [he, h4, decide_true, Bool.false_eq_true, if_true, if_false, R.pure_eq]
+  · have h4' : 4 ≤ b.length := by omega
+    simp only [he, h4, decide_false, Bool.false_eq_true, if_false, upto_ok ⟨b, src⟩ 4 h4', from_ok ⟨b, src⟩ 4 h4',
+      R.ok_bind, R.pure_eq]
 
 /-- `ProgramIter`: the model's `patPrograms` is the translated `next` iterated -/
 theorem tie_stmt_pat_programs (fuel : Nat) : ∀ (b : Bytes) (src : Option Nat),
